@@ -1674,6 +1674,7 @@ impl World for MemWorld {
                 let unwinding = *unwinding;
                 shim::set_relfault(*relfault);
                 let fired_before = shim::relfault_fired();
+                let fired_mp_before = shim::relfault_fired_mprotect();
                 shim::arm();
                 let r = if unwinding {
                     // the caller panics while it still owns the container: the drop runs during unwinding
@@ -1694,11 +1695,17 @@ impl World for MemWorld {
                 if shim::relfault_fired() > fired_before {
                     out.fault("release_time_syscall_refused");
                 }
+                if shim::relfault_fired_mprotect() > fired_mp_before {
+                    out.fault("release_time_noop_mprotect_refused");
+                }
                 if unwinding {
                     out.fault("caller_panic_while_owning");
                 }
                 out.cell(&format!("drop|{:?},{:?}|{}|{}|{}", reg.p, reg.l, len_class(reg.len, self.page), reg.shrunk, unwinding));
                 out.note(&format!("drop slot={} state={:?},{:?} len={}", slot, reg.p, reg.l, reg.len));
+                if *relfault {
+                    out.note(&format!("release-time refusal: {} calls refused, {} of them no-op mprotect", shim::relfault_fired() - fired_before, shim::relfault_fired_mprotect() - fired_mp_before));
+                }
                 if let Err((loc, msg)) = r {
                     out.violate("C14", "c14.crash", site(&[("event", "drop"), ("state", &format!("{:?},{:?}", reg.p, reg.l))]), format!("drop panicked: {} at {}", msg, loc));
                 }
